@@ -33,7 +33,7 @@ impl HE for N64 {
 }
 
 /// edge lists in abstract integer coordinates (even numbers; odd numbers lie strictly between)
-const EDGE_LISTS: [&[i32]; 6] = [&[], &[0], &[0, 4], &[0, 4, 8], &[0, 2, 8], &[8, 0, 4, 4]];
+const EDGE_LISTS: [&[i32]; 7] = [&[], &[0], &[0, 4], &[0, 4, 8], &[0, 2, 8], &[8, 0, 4, 4], &[0, 4, 4, 8]];
 
 #[derive(Clone, Debug)]
 struct St {
@@ -345,13 +345,13 @@ fn main() {
     rep.assume("all history-dependent comparisons (reference map, accept/reject verdict, one-cell-changed, bulk differential) are evaluated inside the transition function, before deduplication, and their verdict is stored in a hashed field");
     let depth: u8 = rep.cfg.pick(7, 9);
     let mut cases: Vec<GCase> = Vec::new();
-    for a in 0..6usize {
+    for a in 0..7usize {
         for ty in 0..2u8 {
             cases.push(GCase { axes: vec![a], ty, depth: depth + 1, threads: 1 });
         }
     }
-    for a in 0..6usize {
-        for b in 0..6usize {
+    for a in 0..7usize {
+        for b in 0..7usize {
             for ty in 0..2u8 {
                 cases.push(GCase { axes: vec![a, b], ty, depth, threads: 1 });
             }
@@ -368,7 +368,7 @@ fn main() {
     }
     for pos in 0..3usize {
         for z in [0usize, 1] {
-            let mut ax = vec![2, 3, 4];
+            let mut ax = vec![2, 6, 4];
             ax[pos] = z;
             cases.push(GCase { axes: ax, ty: (pos % 2) as u8, depth, threads: 1 });
         }
@@ -378,7 +378,7 @@ fn main() {
     rep.dispatch_chunk = 1;
     rep.run_sub(
         "histories",
-        &format!("grids: all 6 one-axis grids (depth {}), all 36 two-axis grids (depth {}), 27 three-axis grids over the non-degenerate edge lists (depth {}) and 6 three-axis grids with a zero-bin axis (depth {}), edge lists {{[], [0], [0,4], [0,4,8], [0,2,8], [8,0,4,4]}}, i32 and N64; actions: per axis one coordinate below the first edge, on every edge, strictly inside every bin, above the last edge - all combinations; breadth-first over ALL insertion sequences up to the depth; each search run twice and the counts compared", depth + 1, depth, if rep.cfg.thorough() { 7 } else { 5 }, depth),
+        &format!("grids: all 7 one-axis grids (depth {}), all 49 two-axis grids (depth {}), 27 three-axis grids over the non-degenerate edge lists (depth {}) and 6 three-axis grids with a zero-bin axis (depth {}), edge lists {{[], [0], [0,4], [0,4,8], [0,2,8], [8,0,4,4] (unsorted, duplicate), [0,4,4,8] (sorted, duplicate)}}, i32 and N64; actions: per axis one coordinate below the first edge, on every edge, strictly inside every bin, above the last edge - all combinations; breadth-first over ALL insertion sequences up to the depth; each search run twice and the counts compared", depth + 1, depth, if rep.cfg.thorough() { 7 } else { 5 }, depth),
         cases.into_iter(),
         |c, lx| {
             lx.nontrivial(c.axes.iter().all(|&a| EDGE_LISTS[a].len() >= 2 && a != 1));
